@@ -114,8 +114,14 @@ Definition text_present_ok (T : ctype) (attrs : list (aname * str)) : bool :=
   | None => true
   end.
 
+(** recorded deviations of the second kind: a child tag c under a parent tag t travels in the
+    same list as (t, content_key c); such children are left out of the content-model match *)
+Definition content_key (c : tag) : N := (1000000 + c)%N.
+Definition kept (ex : list (tag * aname)) (t : tag) (kts : list tag) : list tag :=
+  filter (fun c => negb (mem_pair (t, content_key c) ex)) kts.
+
 Definition local_ok (ex : list (tag * aname)) (T : ctype) (t : tag) (attrs : list (aname * str)) (kts : list tag) : bool :=
-  cm_match (ct_cm T) (map (norm_tag (ct_cm T)) kts)
+  cm_match (ct_cm T) (map (norm_tag (ct_cm T)) (kept ex t kts))
   && forallb (attr_ok ex T t) attrs && req_ok T attrs && text_present_ok T attrs.
 
 (** THE VALIDATOR: the element's children match the content model of its type, every
@@ -176,9 +182,9 @@ Definition req_errs (T : ctype) (t : tag) (attrs : list (aname * str)) : list ve
   flat_map (fun d => if negb (ad_req d) || has_attr (ad_name d) attrs then []
                      else [{| ve_kind := 4%N; ve_elem := t; ve_what := ad_name d; ve_pos := 0%N |}]) (ct_attrs T).
 Definition local_errs (ex : list (tag * aname)) (T : ctype) (t : tag) (attrs : list (aname * str)) (kts : list tag) : list verr :=
-  (if cm_match (ct_cm T) (map (norm_tag (ct_cm T)) kts) then []
-   else let (i, a) := cm_first_bad (ct_cm T) (map (norm_tag (ct_cm T)) kts) 0%N in
-        [{| ve_kind := 1%N; ve_elem := t; ve_what := nth (N.to_nat i) kts 0%N; ve_pos := i |}])
+  (if cm_match (ct_cm T) (map (norm_tag (ct_cm T)) (kept ex t kts)) then []
+   else let (i, a) := cm_first_bad (ct_cm T) (map (norm_tag (ct_cm T)) (kept ex t kts)) 0%N in
+        [{| ve_kind := 1%N; ve_elem := t; ve_what := nth (N.to_nat i) (kept ex t kts) 0%N; ve_pos := i |}])
   ++ attr_errs ex T t attrs ++ req_errs T t attrs
   ++ (if text_present_ok T attrs then [] else [{| ve_kind := 5%N; ve_elem := t; ve_what := 0%N; ve_pos := 0%N |}]).
 
@@ -290,7 +296,7 @@ Definition order_checked (T : ctype) : bool := negb (memt tag_any (tags_of (ct_c
 
 Definition attr_lex_ok (T : ctype) (av : aname * str) : bool :=
   match find_adecl (fst av) (ct_attrs T) with
-  | Some d => lex_ok (ad_lex d) (snd av)
+  | Some d => has_unknown (ad_lex d) || lex_ok (ad_lex d) (snd av)   (* unmodelled pattern: not judged *)
   | None => true                                          (* undeclared attributes are not judged here *)
   end.
 
@@ -380,7 +386,9 @@ Fixpoint all_adm (s : schema) (ty : N) (n : node) (ops : list xop) : Prop :=
 
 (** ---- generated declaration rows (instance of the operation theorem) ---- *)
 Record decl := { dc_id : N; dc_ty : N; dc_child : tag; dc_succ : list tag }.
-Record attrdecl := { at_id : N; at_ty : N; at_name : aname; at_desc : desc }.
+(* at_grp: one group per (element class, attribute); a class registered for a tag that has
+   several XSD types yields one row per type *)
+Record attrdecl := { at_id : N; at_grp : N; at_ty : N; at_name : aname; at_desc : desc }.
 
 Definition decl_row_ok (s : schema) (r : decl) : bool :=
   match lookup_type s (dc_ty r) with
